@@ -67,3 +67,48 @@ def addMonthsS (dt : PyDate) (k : Int) : PyDate :=
   mkDateS d m y
 
 end FinVerif.Spec
+
+namespace FinVerif.Spec
+open FinVerif
+
+/-- The first date strictly after `dt` satisfying `p` (search day by day; `none` if not within `fuel`). -/
+def firstAfter (p : PyDate → Bool) : Nat → PyDate → Option PyDate
+  | 0, _ => none
+  | fuel + 1, dt =>
+    let n := addDaysS dt 1
+    if p n then some n else firstAfter p fuel n
+
+def isQuarterMonth (m : Int) : Bool := m == 3 || m == 6 || m == 9 || m == 12
+
+/-- CDS roll date: the 20th of March, June, September or December. -/
+def isCDSDate (dt : PyDate) : Bool := isQuarterMonth dt.m && dt.d == 20
+
+/-- IMM date: the third Wednesday (the Wednesday with day-of-month 15..21) of a quarter month. -/
+def isIMMDate (dt : PyDate) : Bool := isQuarterMonth dt.m && dt.wd == 2 && decide (15 ≤ dt.d) && decide (dt.d ≤ 21)
+
+def nextCDSS (dt : PyDate) : Option PyDate := firstAfter isCDSDate 100 dt
+def nextIMMS (dt : PyDate) : Option PyDate := firstAfter isIMMDate 100 dt
+
+/-- n weekdays (Mon–Fri) after/before `dt`. -/
+def addWeekdaysS (dt : PyDate) (n : Int) : PyDate :=
+  let step : Int := if n > 0 then 1 else -1
+  let rec go : Nat → Nat → PyDate → PyDate
+    | _, 0, cur => cur
+    | 0, _, cur => cur
+    | fuel + 1, left + 1, cur =>
+      let nd := addDaysS cur step
+      if nd.wd = 5 ∨ nd.wd = 6 then go fuel (left + 1) nd else go fuel left nd
+  go (n.natAbs * 3 + 7) n.natAbs dt
+
+/-- Tenor addition (unit 1 = D, 2 = W, 3 = M, 4 = Y): calendar-correct; month and year tenors keep
+the original day-of-month wherever the target month has it, so nY = 12nM. -/
+def addTenorS (dt : PyDate) (n unit : Int) : PyDate :=
+  if unit = 1 then addDaysS dt n
+  else if unit = 2 then addDaysS dt (7 * n)
+  else if unit = 3 then addMonthsS dt n
+  else if unit = 4 then addMonthsS dt (12 * n)
+  else dt
+
+def eomS (dt : PyDate) : PyDate := mkDateS (monthLen dt.y dt.m) dt.m dt.y
+
+end FinVerif.Spec
